@@ -49,12 +49,13 @@ func main() {
 	debug.SetPanicOnFault(true)
 	switch mode {
 	case "io":
-		os.Exit(ioMain(ioArgs{prop: *prop, config: *config, seed: *seed, worker: *worker, eidx: *eidx, en: *en, minimise: *minimise, from: *from, to: *to,
-			dur: *dur, enum: *enum, caseFile: *caseFile, maxViol: *maxViol, trace: *trace}))
+		a := ioArgs{prop: *prop, config: *config, seed: *seed, worker: *worker, eidx: *eidx, en: *en, minimise: *minimise, from: *from, to: *to,
+			dur: *dur, enum: *enum, caseFile: *caseFile, maxViol: *maxViol, trace: *trace}
+		os.Exit(underBaton(*seed^uint64(*worker)<<32, func() int { return ioMain(a) }))
 	case "genpool":
 		os.Exit(genPoolMain(*seed, *npool))
 	case "solo":
-		os.Exit(soloMain(*pool, *index, *count))
+		os.Exit(underBaton(*seed, func() int { return soloMain(*pool, *index, *count) }))
 	case "conc":
 		os.Exit(concMain(concArgs{config: *config, seed: *seed, worker: *worker, pool: *pool, ref: *refFile, from: *from, to: *to,
 			dur: *dur, caseFile: *caseFile, trace: *trace, family: *family, dumpep: *dumpep, firstuse: *firstuse, eidx: *eidx, en: *en}))
